@@ -197,7 +197,17 @@ def confirm(h, r, ov, env, outdir):
                 "summary": "no counterexample exists under the witness size cap (VERIF_REPLAY_CAP): the violation only "
                            "manifests for streams too large to materialise natively", "playback_s": round(wall, 1)}
     if not tests:
-        return {"status": "no-values", "summary": f"concrete playback produced no values (status {pr['status']})",
+        # no witness could be extracted (playback ran out of memory / time): the template is still a
+        # native check of the same property on the real crates — run it on its built-in scenario
+        out = run_native(ov, template, dict(consts), outdir, h["name"] + "-defaults", scaled=h.get("scaled", False))
+        if out["status"] == "reproduced":
+            out["values"] = dict(consts)
+            out["template"] = template
+            out["witnesses_tried"] = []
+            out["note"] = f"concrete playback produced no values (status {pr['status']}); reproduced on the template's built-in scenario"
+            out["playback_s"] = round(wall, 1)
+            return out
+        return {"status": "no-values", "summary": f"concrete playback produced no values (status {pr['status']}) and the template's built-in scenario does not reproduce",
                 "playback_s": round(wall, 1)}
     # one witness per failed check: replay them in turn until one reproduces (at most 6; cover-region witnesses come last)
     tried = []
